@@ -677,3 +677,23 @@ _amend("C03", "and 14 allocation-heavy templates (list/vector/string builders,",
 _amend("C06", "radix / exponent / syntax edge cases;",
        "radix / exponent / syntax edge cases, and three histories in which evaluations fail in between (a deep continuation re-entered after a "
        "run-time or syntax error, deep recursion after many errors);")
+_amend("C01", "one session in seven carries one injected failure",
+       "one session in five rebinds a built-in (abs, max, min or quotient, which neither the prelude nor other generated code uses) to a counting "
+       "wrapper after code calling it was compiled, and reports the count last (late binding of globals); one in eight contains a parameterless "
+       "procedure with internal state activated several times; one session in seven carries one injected failure")
+_amend("C02", "Every level also defines an internal procedure",
+       "The innermost level also evaluates, for each name, a named let whose tag is that name and whose init reads it. Every level also defines an internal procedure")
+_amend("C03", "symbols whose spelling needs escapes interned, dropped and re-interned,",
+       "symbols whose spelling needs escapes interned, dropped and re-interned, quasiquote templates whose dotted tail is a heap constant,")
+_amend("C05", "re-entry 0-3 times inside one form;",
+       "re-entry 0-3 times inside one form; call/cc as an operand directly in the body of a named procedure, re-entered by that same activation; "
+       "a mutable object handed to a continuation and mutated through the other reference afterwards;")
+_amend("C06", "(3) arities 3-5 sampled;",
+       "(3) arities 3-5 sampled (a quarter passing the first argument again as the same object) plus, per name, 117 calls (X i X), (X i X j), "
+       "(X i X j k) with X a vector / list / string passed twice as the same object and i, j, k in 0..2;")
+_amend("C07", "failure kind (index mod 7: unbound variable,",
+       "failure kind (index mod 7: unbound variable (referenced directly or by a procedure compiled earlier whose callee is defined only after the failures),")
+_amend("C13", "One evaluation = one (session, budget ",
+       "For failing forms the number of frames of the recorded stack trace is compared as well. One evaluation = one (session, budget ")
+_amend("C17", "Uses are generated from each rule's pattern",
+       "One datum in twelve of a use is a list headed by a keyword (prelude macro, special form, the macro itself), which inside the quoted expansion must come back untouched. Uses are generated from each rule's pattern")
